@@ -1,40 +1,30 @@
 (* Src/CompileCorrect3.v — compiler correctness on the machine WITH FRAMES (VM/ValueVM3.v) for the
-   code of Src/Compile3.v.  PARTIAL (stage 3 of Src/CompileCorrect.v, whose theorems on the
-   frameless machine of stages 1-2 stay until this one is complete).
+   code of Src/Compile3.v, all three levels of the fragment (stage 3 of Src/CompileCorrect.v, whose
+   theorems on the frameless machine of stages 1-2 stay).
 
-   Proved here, for levels 1 and 2 of the fragment (everything except calls of the program's own
-   functions; hypothesis `Nat.leb 3 lv = false`):
-     compile_expr_correct_frames   code of an expression embedded in a function of a program that is
-                                laid out as the function table says (`pcode_at`: the stdlib print
-                                and the program's functions are at their addresses, the exception
-                                table sends every address of a function to its LABEL; RETHROW):
-                                if `eval` yields cell c the VM reaches the end of the block with the
-                                image of c pushed and the frame registers (fp, exception, suspended
-                                activations) unchanged; if `eval` raises division_by_zero the VM
-                                has DISPATCHED the exception: ip = exception_tab_search(address of
-                                the faulting DIV/MOD), machine->exception set, registers otherwise
-                                unchanged.  print(e) runs through the real call sequence: MARK
-                                pushes the five header words, the argument is evaluated at level
-                                L+5, GLOBAL_VEC / ID_FUNC_ADDR / CALL enter the stdlib body
-                                FUNC_DEF; ID_LOCAL 0 0; BUILD_IN print; RET, RET pops the frame;
-                                a fault inside the argument unwinds the pending header through the
-                                function's LABEL; RETHROW and re-raises at the CALL
-                                (`unwind_pending`).
-   Infrastructure already in place for the missing cases: `enter_call`, `step_call_frame`,
-   `step_ret_frame`, `step_rethrow_frame`, `handler_code`, `env_match` with the function clauses,
-   `MS` with function cells (MF).
-   MISSING for compile_program_correct_F3 (stated in Properties/Properties_C02b.v as a comment):
-     (a) case_ECall: arguments right to left (induction over the list with expr_spec k), callee body
-         through case_EBlock at the callee's registers, RET / RETHROW back to the caller;
-     (b) the statement for expressions in tail position (cexpr (Some f) true: ?: branches, last
-         items of blocks, the self tail call `args; f; SLIDE; CALL` that reuses the frame);
-     (c) prog_ok for `rel_image p` (layout lemmas over the concatenation of the bodies, hsearch on
-         exc_table p) and the entry stub (MARK; PUSH_PARAM; GLOBAL_VEC 0; ID_FUNC_ENTRY; CALL; LABEL;
-         HALT / UNHANDLED_EXCEPTION).
-   The tie (checks/parts/compiletie.py level 3) already checks the full statement on generated
-   programs: model image = real module, ValueVM3 = real VM (result, prints, exception, peak sp,
-   instruction count), ValueVM3 = evaluator.
-   No axioms. *)
+   By one induction on the evaluator's fuel (`spec_all`), jointly for
+     expr_spec     an expression anywhere in a function of a program that is laid out as the function
+                   table says (`pcode_at`): `eval` yields cell c => the VM reaches the end of the
+                   block with the image of c pushed and the frame registers (fp, exception, suspended
+                   activations) unchanged; `eval` raises => the exception has been DISPATCHED: ip =
+                   exception_tab_search(address of the faulting instruction), machine->exception set,
+                   registers otherwise unchanged (`raises`)
+     items_spec, while_spec, dowhile_spec   blocks and loops (as in stages 1-2)
+     tail_spec, titems_spec   expressions / blocks in TAIL POSITION of a function (cexpr (Some f) true):
+                   as above, or the whole activation has already RETurned to / RETHROWn at its caller
+                   (`returned`, `rethrown`) — through a self tail call `args; f; SLIDE; CALL` that
+                   reuses the frame (`tcase_ECall`)
+   and, derived at each fuel, body_spec: one activation of a program function from FUNC_DEF to the
+   state after its RET (result on the caller's stack, caller's registers restored) or after its
+   LABEL; RETHROW (exception re-raised at the caller's CALL).
+   Calls (`case_ECall`): MARK pushes the five header words, the arguments are evaluated right to left
+   at levels L+5, L+6, … (`args_spec_of`), GLOBAL_VEC 0; ID_FUNC_ADDR f; CALL suspend the caller
+   (`enter_call`), body_spec runs the callee, LABEL continues; a fault inside an argument unwinds the
+   pending header through the function's LABEL; RETHROW and re-raises at the CALL (`unwind_pending`);
+   a fault inside the callee comes back through RETHROW.  print(e) is the call of the stdlib body
+   FUNC_DEF; ID_LOCAL 0 0; BUILD_IN print; RET (`case_EPrint`).
+   Theorem compile_expr_correct_frames; whole programs (layout facts, entry stub,
+   compile_program_correct_F3) are in Src/CompileCorrect3Prog.v.  No axioms. *)
 From Coq Require Import ZArith List Bool Lia.
 From NV Require Import Gen.Opcodes Verifier.Effect Src.Syntax Src.Eval Src.EvalLemmas
   VM.ValueVM3 Src.Compile3 Src.CompileCorrect3Base.
@@ -1856,7 +1846,7 @@ Proof.
   - inv He. exact I.
 Qed.
 
-(* ---- a function body (functions in which front/tailrec.c marks nothing) --------------------------- *)
+(* ---- the environment of a function body ---------------------------------------------------------- *)
 
 Lemma param_env_names : forall ps cs penv stk m pre,
   bind_params ps cs = Some penv ->
@@ -1911,21 +1901,472 @@ Proof.
   - exact Hg.
 Qed.
 
-(* for every function of the program, the tail-position compilation of the body is the plain one:
-   front/tailrec.c marks no call (no self call is in tail position) *)
-Hypothesis Hnotail : forall fd, In fd (g_funcs G) ->
-  compile_body FT fd = compile_expr 0 (param_env (fd_params fd) 0) (EBlock (fd_body fd)).
+(* ---- expressions in tail position of a function --------------------------------------------------
+   The activation of function fd runs with r_fp = 0 (no MARK pending: a tail position is never inside
+   an argument list), its caller suspended in the first frame F.  An expression in tail position
+   either ends like any other (its value pushed) or, through a self tail call that reuses the
+   frame, the whole activation has already RETurned / RETHROWn to the caller. *)
 
-Lemma body_of_items : forall k, items_spec k -> body_spec k.
+Definition mkfr (e0 : option exn) (F : frame) (fs : list frame) : fregs :=
+  {| r_fp := 0; r_exc := e0; r_frames := F :: fs |}.
+
+Definition returned (prog : list rinstr) (s : vstate) (m : morph) (c : nat) (st' : state)
+  (e0 : option exn) (F : frame) (fs : list frame) : Prop :=
+  exists h' o' m' a,
+    star prog s (mk (f_ret F) (a :: f_below F) h' o' {| r_fp := f_fp F; r_exc := e0; r_frames := fs |}) /\
+    nth_error m' c = Some (MA a) /\ MS m' st' h' /\ ext m m' /\ o' = out st'.
+
+Definition rethrown (prog : list rinstr) (s : vstate) (st' : state) (F : frame) (fs : list frame) : Prop :=
+  exists h' t,
+    star prog s (mk (hsearch (x_tab X) (Nat.pred (f_ret F)) 0) (t :: f_below F) h' (out st')
+                    {| r_fp := f_fp F; r_exc := Some ExDivision; r_frames := fs |}).
+
+Definition tconcl (prog : list rinstr) (s : vstate) (pc n : nat) (m : morph) (r : res) (st' : state)
+  (e0 : option exn) (F : frame) (fs : list frame) : Prop :=
+  match r with
+  | ROk c => post_ok prog s (pc + n) m c st' \/ returned prog s m c st' e0 F fs
+  | RExc ex => ex = ExDivision /\ (raises prog s pc (pc + n) st' \/ rethrown prog s st' F fs)
+  | _ => True
+  end.
+
+Lemma concl_tconcl : forall prog s pc n m r st' e0 F fs,
+  concl prog s pc n m r st' -> tconcl prog s pc n m r st' e0 F fs.
+Proof. intros. destruct r; simpl in *; auto. destruct H. auto. Qed.
+
+(* a run in front (same stack, same registers) and pure control steps behind *)
+Lemma tconcl_lift : forall prog s s1 pc n pc1 n1 m m1 r st' e0 F fs,
+  star prog s s1 -> v_fr s1 = v_fr s -> v_stk s1 = v_stk s -> ext m m1 ->
+  (pc <= pc1)%nat -> (pc1 + n1 <= pc + n)%nat ->
+  (forall stk2 h2 o2 fr2, star prog (mk (pc1 + n1) stk2 h2 o2 fr2) (mk (pc + n) stk2 h2 o2 fr2)) ->
+  tconcl prog s1 pc1 n1 m1 r st' e0 F fs -> tconcl prog s pc n m r st' e0 F fs.
+Proof.
+  intros prog s s1 pc n pc1 n1 m m1 r st' e0 F fs Hst Hfr Hstk Hext Hlo Hhi Hfin H.
+  destruct r as [c|ex| |]; simpl in *; auto.
+  - destruct H as [(s2 & m2 & a & H1 & H2 & H3 & H4 & H5 & H6 & H7 & H8) | (h' & o' & m' & a & H1 & H2 & H3 & H4 & H5)].
+    + left. destruct s2 as [ip2 stk2 h2 o2 fr2]. simpl in H2, H3, H7, H8. subst ip2.
+      exists (mk (pc + n) stk2 h2 o2 fr2), m2, a. simpl.
+      split; [eapply star_trans; [exact Hst|]; eapply star_trans; [exact H1 | apply Hfin]|].
+      split; [reflexivity|]. split; [congruence|]. split; [exact H4|]. split; [exact H5|].
+      split; [eapply ext_trans; eauto|]. split; [exact H7 | congruence].
+    + right. exists h', o', m', a. split; [eapply star_trans; eauto|]. split; [exact H2|].
+      split; [exact H3|]. split; [eapply ext_trans; eauto | exact H5].
+  - destruct H as (-> & [Hr | (h' & t & H1)]); split; auto.
+    + left. eapply raises_star; [exact Hst | exact Hfr | exists []; simpl; congruence |].
+      eapply raises_weaken; [exact Hr | lia | lia].
+    + right. exists h', t. eapply star_trans; eauto.
+Qed.
+
+Definition tail_case (k : nat) (e : expr) : Prop :=
+  forall kidx fd, nth_error (g_funcs G) kidx = Some fd ->
+  forall env st r st', eval genv k env st e = (r, st') ->
+  forall sc, in_F lv sc e = true ->
+  forall prog pc L ce stk h o m e0 F fs,
+    code_at prog pc (Compile3.cexpr FT (Some (fd_name fd)) true L ce e) ->
+    MS m st h -> o = out st -> env_match m env ce sc L stk ->
+    Z.of_nat (length stk) = L + Z.of_nat (length (fd_params fd)) ->
+    tconcl prog (mk pc stk h o (mkfr e0 F fs)) pc
+           (length (Compile3.cexpr FT (Some (fd_name fd)) true L ce e)) m r st' e0 F fs.
+
+Definition tail_spec (k : nat) : Prop := forall e, tail_case k e.
+
+Lemma tcase_ECond : forall k c a b, expr_spec k -> tail_spec k -> tail_case (S k) (ECond c a b).
+Proof.
+  intros k c a b IH IHt kidx fd Hk env st r st' He sc HF prog ip L ce stk h o m e0 F fs Hc HMS Hout Hem Hlen.
+  set (frc := mkfr e0 F fs) in *. set (self := Some (fd_name fd)) in *.
+  simpl in HF.
+  apply andb_true_iff in HF; destruct HF as [HF Fb].
+  apply andb_true_iff in HF; destruct HF as [HF Fa].
+  apply andb_true_iff in HF; destruct HF as [_ Fc].
+  rewrite eval_ECond in He.
+  change (Compile3.cexpr FT self true L ce (ECond c a b)) with
+    (compile_expr L ce c ++ ins BYTECODE_JUMPZ (len (Compile3.cexpr FT self true L ce a) + 2) 0 ::
+     Compile3.cexpr FT self true L ce a ++
+     ins BYTECODE_JUMP (len (Compile3.cexpr FT self true L ce b) + 2) 0 :: ins0 BYTECODE_LABEL ::
+     Compile3.cexpr FT self true L ce b ++ [ins0 BYTECODE_LABEL]) in *.
+  set (cc := compile_expr L ce c) in *. set (ca := Compile3.cexpr FT self true L ce a) in *.
+  set (cb := Compile3.cexpr FT self true L ce b) in *.
+  assert (Htot : length (cc ++ ins BYTECODE_JUMPZ (len ca + 2) 0 :: ca ++
+                    ins BYTECODE_JUMP (len cb + 2) 0 :: ins0 BYTECODE_LABEL :: cb ++ [ins0 BYTECODE_LABEL])
+            = (length cc + length ca + length cb + 4)%nat).
+  { rewrite !app_length. simpl. rewrite !app_length. simpl. rewrite app_length. simpl. lia. }
+  rewrite Htot.
+  pose proof (code_at_app_l _ _ _ _ Hc) as Hcc.
+  pose proof (code_at_app_r _ _ _ _ Hc) as H1.
+  pose proof (code_at_head _ _ _ _ H1) as HJZ.
+  pose proof (code_at_tail _ _ _ _ H1) as H2.
+  pose proof (code_at_app_l _ _ _ _ H2) as Hca.
+  pose proof (code_at_app_r _ _ _ _ H2) as H3.
+  pose proof (code_at_head _ _ _ _ H3) as HJ.
+  pose proof (code_at_tail _ _ _ _ (code_at_tail _ _ _ _ H3)) as H4.
+  pose proof (code_at_app_l _ _ _ _ H4) as Hcb.
+  pose proof (code_at_head _ _ _ _ (code_at_app_r _ _ _ _ H4)) as HL.
+  destruct (eval genv k env st c) as [r1 st1] eqn:Ec.
+  pose proof (IH c _ _ _ _ Ec sc Fc prog ip L ce (mk ip stk h o frc) m Hcc eq_refl HMS Hout Hem) as Hcnd.
+  fold cc in Hcnd.
+  destruct r1 as [c1|ex| |]; simpl in Hcnd; [| inv He; simpl | inv He; exact I | inv He; exact I].
+  2:{ destruct Hcnd as [-> Hr]. split; [reflexivity|]. left. eapply raises_weaken; [exact Hr | lia | lia]. }
+  destruct Hcnd as (s1 & m1 & a1 & Hst1 & Hip1 & Hstk1 & Hm1 & HMS1 & Hext1 & Hout1 & Hfr1).
+  destruct s1 as [ip1 stk1 h1 o1 fr1]; simpl in Hip1, Hstk1, HMS1, Hout1, Hfr1; subst ip1 stk1 fr1.
+  destruct (get_bool st1 c1) as [bv|] eqn:Eg; [|inv He; exact I].
+  pose proof (MS_payload_bool _ _ _ _ _ _ HMS1 Hm1 Eg) as Hp.
+  pose proof (env_match_ext _ _ _ _ _ _ _ Hem Hext1) as Hem1.
+  destruct bv.
+  - assert (Hj : star prog (mk ip stk h o frc) (mk (S (ip + length cc)) stk h1 o1 frc)).
+    { eapply star_snoc; [exact Hst1|]. eapply (step_jumpz_nonzero frc); eauto. simpl. lia. }
+    pose proof (IHt a kidx fd Hk _ _ _ _ He sc Fa prog (S (ip + length cc)) L ce stk h1 o1 m1 e0 F fs
+                  Hca HMS1 Hout1 Hem1 Hlen) as Ha.
+    fold self ca frc in Ha.
+    eapply (tconcl_lift _ _ _ _ _ (S (ip + length cc)) (length ca)); [exact Hj | reflexivity | reflexivity | exact Hext1 | lia | lia | | exact Ha].
+    intros stk2 h2 o2 fr2. apply star_one.
+    rewrite (step_jump_fwd fr2 _ _ _ _ _ _ _ HJ) by (unfold len; lia).
+    f_equal. f_equal. unfold len. lia.
+  - assert (Hj : star prog (mk ip stk h o frc) (mk (S (S (S (ip + length cc) + length ca))) stk h1 o1 frc)).
+    { eapply star_snoc; [exact Hst1|].
+      rewrite (step_jumpz_zero frc _ _ _ _ _ _ _ _ HJZ Hp) by (unfold len; lia).
+      f_equal. f_equal. unfold len. lia. }
+    pose proof (IHt b kidx fd Hk _ _ _ _ He sc Fb prog (S (S (S (ip + length cc) + length ca))) L ce stk h1 o1 m1 e0 F fs
+                  Hcb HMS1 Hout1 Hem1 Hlen) as Hb.
+    fold self cb frc in Hb.
+    eapply (tconcl_lift _ _ _ _ _ (S (S (S (ip + length cc) + length ca))) (length cb)); [exact Hj | reflexivity | reflexivity | exact Hext1 | lia | lia | | exact Hb].
+    intros stk2 h2 o2 fr2. apply star_one.
+    replace (ip + (length cc + length ca + length cb + 4))%nat
+      with (S (S (S (S (ip + length cc) + length ca)) + length cb)) by lia.
+    apply step_label. exact HL.
+Qed.
+
+(* blocks in tail position: the last expression item is in tail position *)
+Local Notation compile_items_tl := (Compile3.compile_items_tl FT).
+
+Lemma compile_items_tl_let : forall self L ce x e t, compile_items_tl self L ce (ILet x e :: t) =
+  compile_expr L ce e ++ compile_items_tl self (L + 1) ((x, L + 1) :: ce) t.
+Proof. reflexivity. Qed.
+Lemma compile_items_tl_var : forall self L ce x e t, compile_items_tl self L ce (IVar x e :: t) =
+  compile_expr L ce e ++ compile_items_tl self (L + 1) ((x, L + 1) :: ce) t.
+Proof. reflexivity. Qed.
+Lemma compile_items_tl_last : forall self L ce e, compile_items_tl self L ce [IExpr e] =
+  Compile3.cexpr FT self true L ce e ++ [].
+Proof. reflexivity. Qed.
+Lemma compile_items_tl_expr : forall self L ce e it t, compile_items_tl self L ce (IExpr e :: it :: t) =
+  compile_expr L ce e ++ ins BYTECODE_SLIDE 1 0 :: compile_items_tl self L ce (it :: t).
+Proof. reflexivity. Qed.
+Lemma cexpr_block_tl : forall self L ce items, Compile3.cexpr FT self true L ce (EBlock items) =
+  compile_items_tl self L ce items ++ block_end (nbinds items).
+Proof. reflexivity. Qed.
+
+Definition titems_concl (prog : list rinstr) (s : vstate) (pc : nat) (code : list rinstr) (nb : Z)
+  (m : morph) (r : res) (st' : state) (e0 : option exn) (F : frame) (fs : list frame) : Prop :=
+  match r with
+  | ROk c =>
+    (exists s' m' a locals, star prog s s' /\ v_ip s' = (pc + length code)%nat /\
+       v_stk s' = a :: locals ++ v_stk s /\ Z.of_nat (length locals) = nb /\
+       nth_error m' c = Some (MA a) /\ MS m' st' (v_heap s') /\ ext m m' /\ v_out s' = out st' /\
+       v_fr s' = v_fr s) \/
+    returned prog s m c st' e0 F fs
+  | RExc ex => ex = ExDivision /\ (raises prog s pc (pc + length code) st' \/ rethrown prog s st' F fs)
+  | _ => True
+  end.
+
+Lemma titems_lift : forall prog s s1 pre pc code pc1 code1 nb1 m m1 r st' e0 F fs,
+  star prog s s1 -> v_fr s1 = v_fr s -> v_stk s1 = pre ++ v_stk s -> ext m m1 ->
+  (pc <= pc1)%nat -> (pc1 + length code1 = pc + length code)%nat ->
+  titems_concl prog s1 pc1 code1 nb1 m1 r st' e0 F fs ->
+  titems_concl prog s pc code (nb1 + Z.of_nat (length pre)) m r st' e0 F fs.
+Proof.
+  intros prog s s1 pre pc code pc1 code1 nb1 m m1 r st' e0 F fs Hst Hfr Hstk Hext Hlo Hend H.
+  destruct r as [c|ex| |]; simpl in *; auto.
+  - destruct H as [(s2 & m2 & a & locals & H1 & H2 & H3 & H4 & H5 & H6 & H7 & H8 & H9) | (h' & o' & m' & a & H1 & H2 & H3 & H4 & H5)].
+    + left. exists s2, m2, a, (locals ++ pre). split; [eapply star_trans; eauto|].
+      split; [lia|]. split; [rewrite H3, Hstk, app_assoc; reflexivity|].
+      split; [rewrite app_length; lia|]. split; [exact H5|]. split; [exact H6|].
+      split; [eapply ext_trans; eauto|]. split; [exact H8 | congruence].
+    + right. exists h', o', m', a. split; [eapply star_trans; eauto|]. split; [exact H2|].
+      split; [exact H3|]. split; [eapply ext_trans; eauto | exact H5].
+  - destruct H as (-> & [Hr | (h' & t & H1)]); split; auto.
+    + left. eapply raises_star; [exact Hst | exact Hfr | exists pre; exact Hstk |].
+      eapply raises_weaken; [exact Hr | lia | lia].
+    + right. exists h', t. eapply star_trans; eauto.
+Qed.
+
+Definition titems_spec (k : nat) : Prop :=
+  forall kidx fd, nth_error (g_funcs G) kidx = Some fd ->
+  forall items env st last r st', eval_items genv k env st items last = (r, st') ->
+  forall sc, items_F lv sc items = true ->
+  forall prog pc L ce stk h o m e0 F fs,
+    code_at prog pc (compile_items_tl (Some (fd_name fd)) L ce items) ->
+    MS m st h -> o = out st -> env_match m env ce sc L stk ->
+    Z.of_nat (length stk) = L + Z.of_nat (length (fd_params fd)) ->
+    titems_concl prog (mk pc stk h o (mkfr e0 F fs)) pc
+      (compile_items_tl (Some (fd_name fd)) L ce items) (nbinds items) m r st' e0 F fs.
+
+Lemma titems_bind_step : forall k x e t, expr_spec k -> titems_spec k ->
+  forall kidx fd, nth_error (g_funcs G) kidx = Some fd ->
+  forall env st r st',
+  match eval genv k env st e with
+  | (ROk c, st1) => eval_items genv k ((x, c) :: env) st1 t (Some c)
+  | r => r end = (r, st') ->
+  forall sc, negb (is_fname FS x) && in_F lv sc e && items_F lv (x :: sc) t = true ->
+  forall prog pc L ce stk h o m e0 F fs,
+    code_at prog pc (compile_expr L ce e ++ compile_items_tl (Some (fd_name fd)) (L + 1) ((x, L + 1) :: ce) t) ->
+    MS m st h -> o = out st -> env_match m env ce sc L stk ->
+    Z.of_nat (length stk) = L + Z.of_nat (length (fd_params fd)) ->
+    titems_concl prog (mk pc stk h o (mkfr e0 F fs)) pc
+      (compile_expr L ce e ++ compile_items_tl (Some (fd_name fd)) (L + 1) ((x, L + 1) :: ce) t)
+      (1 + nbinds t) m r st' e0 F fs.
+Proof.
+  intros k x e t IHe IHi kidx fd Hk env st r st' He sc HF prog ip L ce stk h o m e0 F fs Hc HMS Hout Hem Hlen.
+  set (frc := mkfr e0 F fs) in *.
+  apply andb_true_iff in HF; destruct HF as [HF Ft].
+  apply andb_true_iff in HF; destruct HF as [Hnx Fe]. apply negb_true_iff in Hnx.
+  set (ca := compile_expr L ce e) in *.
+  set (ct := compile_items_tl (Some (fd_name fd)) (L + 1) ((x, L + 1) :: ce) t) in *.
+  destruct (eval genv k env st e) as [r1 st1] eqn:Ea.
+  pose proof (IHe e _ _ _ _ Ea sc Fe prog ip L ce (mk ip stk h o frc) m
+                (code_at_app_l _ _ _ _ Hc) eq_refl HMS Hout Hem) as Ha. fold ca in Ha.
+  destruct r1 as [c1|ex| |]; simpl in Ha; [| inv He; simpl | inv He; exact I | inv He; exact I].
+  2:{ destruct Ha as [-> Hr]. split; [reflexivity|]. left.
+      eapply raises_weaken; [exact Hr | lia | rewrite app_length; lia]. }
+  destruct Ha as (s1 & m1 & a1 & Hst1 & Hip1 & Hstk1 & Hm1 & HMS1 & Hext1 & Hout1 & Hfr1).
+  destruct s1 as [ip1 stk1 h1 o1 fr1]; simpl in Hip1, Hstk1, HMS1, Hout1, Hfr1; subst ip1 stk1 fr1.
+  assert (Hlen1 : Z.of_nat (length (a1 :: stk)) = L + 1 + Z.of_nat (length (fd_params fd))) by (simpl length; lia).
+  pose proof (IHi kidx fd Hk t _ _ _ _ _ He (x :: sc) Ft prog (ip + length ca)%nat (L + 1) ((x, L + 1) :: ce)
+                (a1 :: stk) h1 o1 m1 e0 F fs (code_at_app_r _ _ _ _ Hc) HMS1 Hout1
+                (env_match_bind _ _ _ _ _ _ x c1 a1 (env_match_ext _ _ _ _ _ _ _ Hem Hext1) Hm1 Hnx) Hlen1) as Ht.
+  fold ct frc in Ht.
+  replace (1 + nbinds t) with (nbinds t + Z.of_nat (length [a1])) by (simpl length; lia).
+  eapply (titems_lift _ _ _ [a1] _ _ (ip + length ca)%nat ct); [exact Hst1 | reflexivity | reflexivity | exact Hext1 | lia | rewrite app_length; lia | exact Ht].
+Qed.
+
+Lemma titems_step : forall k, expr_spec k -> tail_spec k -> titems_spec k -> titems_spec (S k).
+Proof.
+  intros k IHe IHt IHi kidx fd Hk items env st last r st' He sc HF prog ip L ce stk h o m e0 F fs Hc HMS Hout Hem Hlen.
+  set (frc := mkfr e0 F fs) in *. set (self := Some (fd_name fd)) in *.
+  destruct items as [|it t]; [discriminate HF|].
+  destruct it as [x e | x e | fd0 | e].
+  - rewrite eval_items_ILet in He. rewrite items_F1_let in HF. rewrite compile_items_tl_let in *.
+    change (nbinds (ILet x e :: t)) with (1 + nbinds t).
+    eapply titems_bind_step; eauto.
+  - rewrite eval_items_IVar in He. rewrite items_F1_var in HF. rewrite compile_items_tl_var in *.
+    change (nbinds (IVar x e :: t)) with (1 + nbinds t).
+    eapply titems_bind_step; eauto.
+  - discriminate HF.
+  - rewrite eval_items_IExpr in He. rewrite items_F1_expr in HF.
+    change (nbinds (IExpr e :: t)) with (nbinds t).
+    apply andb_true_iff in HF; destruct HF as [Fe Ft].
+    destruct t as [|it2 t2].
+    + (* the last item: tail position *)
+      rewrite compile_items_tl_last in *. rewrite app_nil_r in *.
+      destruct (eval genv k env st e) as [r1 st1] eqn:Ea.
+      pose proof (IHt e kidx fd Hk _ _ _ _ Ea sc Fe prog ip L ce stk h o m e0 F fs Hc HMS Hout Hem Hlen) as Ha.
+      fold self frc in Ha.
+      destruct r1 as [c1|ex| |]; simpl in Ha; [| inv He; simpl; exact Ha | inv He; exact I | inv He; exact I].
+      destruct (eval_items_nil_inv _ _ _ _ _ _ He) as [-> | [-> ->]]; [exact I|]. simpl.
+      destruct Ha as [(s1 & m1 & a1 & Hst1 & Hip1 & Hstk1 & Hm1 & HMS1 & Hext1 & Hout1 & Hfr1) | Hret].
+      * left. exists s1, m1, a1, []. simpl. repeat (split; auto).
+      * right. exact Hret.
+    + rewrite compile_items_tl_expr in *.
+      set (t := it2 :: t2) in *. set (ca := compile_expr L ce e) in *.
+      destruct (eval genv k env st e) as [r1 st1] eqn:Ea.
+      pose proof (IHe e _ _ _ _ Ea sc Fe prog ip L ce (mk ip stk h o frc) m
+                    (code_at_app_l _ _ _ _ Hc) eq_refl HMS Hout Hem) as Ha. fold ca in Ha.
+      destruct r1 as [c1|ex| |]; simpl in Ha; [| inv He; simpl | inv He; exact I | inv He; exact I].
+      2:{ destruct Ha as [-> Hr]. split; [reflexivity|]. left.
+          eapply raises_weaken; [exact Hr | lia | rewrite app_length; lia]. }
+      destruct Ha as (s1 & m1 & a1 & Hst1 & Hip1 & Hstk1 & Hm1 & HMS1 & Hext1 & Hout1 & Hfr1).
+      destruct s1 as [ip1 stk1 h1 o1 fr1]; simpl in Hip1, Hstk1, HMS1, Hout1, Hfr1; subst ip1 stk1 fr1.
+      pose proof (code_at_app_r _ _ _ _ Hc) as Hc2.
+      pose proof (code_at_head _ _ _ _ Hc2) as Hsl. pose proof (code_at_tail _ _ _ _ Hc2) as Hct.
+      assert (Hpop : star prog (mk ip stk h o frc) (mk (S (ip + length ca)) stk h1 o1 frc)).
+      { eapply star_snoc; [exact Hst1|]. apply (step_slide_pop frc). exact Hsl. }
+      pose proof (IHi kidx fd Hk t _ _ _ _ _ He sc Ft prog (S (ip + length ca)) L ce stk h1 o1 m1 e0 F fs
+                    Hct HMS1 Hout1 (env_match_ext _ _ _ _ _ _ _ Hem Hext1) Hlen) as Ht.
+      fold self frc in Ht.
+      replace (nbinds t) with (nbinds t + Z.of_nat (length (@nil nat))) by (simpl; lia).
+      eapply (titems_lift _ _ _ [] _ _ (S (ip + length ca)) (compile_items_tl self L ce t));
+        [exact Hpop | reflexivity | reflexivity | exact Hext1 | lia | rewrite app_length; simpl; lia | exact Ht].
+Qed.
+
+Lemma tcase_EBlock : forall k items, titems_spec k -> tail_case (S k) (EBlock items).
+Proof.
+  intros k items IHi kidx fd Hk env st r st' He sc HF prog ip L ce stk h o m e0 F fs Hc HMS Hout Hem Hlen.
+  set (frc := mkfr e0 F fs) in *. set (self := Some (fd_name fd)) in *.
+  rewrite eval_EBlock in He. rewrite cexpr_block_tl in *.
+  change (in_F lv sc (EBlock items)) with (items_F lv sc items) in HF.
+  pose proof (IHi kidx fd Hk items env st None r st' He sc HF prog ip L ce stk h o m e0 F fs
+                (code_at_app_l _ _ _ _ Hc) HMS Hout Hem Hlen) as Hi.
+  fold self frc in Hi. unfold titems_concl in Hi.
+  destruct r as [c|ex| |]; simpl in Hi |- *; auto.
+  - destruct Hi as [(s1 & m1 & a & locals & Hst1 & Hip1 & Hstk1 & Hlenl & Hm1 & HMS1 & Hext1 & Hout1 & Hfr1) | Hret];
+      [left | right; exact Hret].
+    destruct s1 as [ip1 stk1 h1 o1 fr1]; simpl in Hip1, Hstk1, HMS1, Hout1, Hfr1; subst ip1 stk1 fr1.
+    pose proof (code_at_app_r _ _ _ _ Hc) as Hce.
+    unfold block_end in *. destruct (0 <? nbinds items) eqn:En.
+    + apply Z.ltb_lt in En.
+      apply (post_ok_intro _ _ _ _ _ _ (mk (S (ip + length (compile_items_tl self L ce items))) (a :: stk) h1 o1 frc) m1 a);
+        simpl; auto.
+      * eapply star_snoc; [exact Hst1|]. eapply (step_slide_block frc); eauto. eapply code_at_head; exact Hce.
+      * rewrite app_length. simpl. lia.
+    + apply Z.ltb_ge in En. pose proof (nbinds_nonneg items).
+      assert (locals = []) by (destruct locals; [reflexivity | simpl in Hlenl; lia]). subst locals.
+      apply (post_ok_intro _ _ _ _ _ _ (mk (ip + length (compile_items_tl self L ce items)) (a :: stk) h1 o1 frc) m1 a);
+        simpl; auto.
+      rewrite app_nil_r. reflexivity.
+  - destruct Hi as (-> & [Hr | Hre]); split; auto.
+    left. eapply raises_weaken; [exact Hr | lia | rewrite app_length; lia].
+Qed.
+
+(* everything that is not ?: / a block / a call is compiled in tail position like anywhere else *)
+Lemma tcase_other : forall k e, expr_case k e ->
+  (forall self L ce, Compile3.cexpr FT self true L ce e = compile_expr L ce e) -> tail_case k e.
+Proof.
+  intros k e H Heq kidx fd Hk env st r st' He sc HF prog ip L ce stk h o m e0 F fs Hc HMS Hout Hem Hlen.
+  rewrite Heq in *. apply concl_tconcl.
+  exact (H env st r st' He sc HF prog ip L ce (mk ip stk h o (mkfr e0 F fs)) m Hc eq_refl HMS Hout Hem).
+Qed.
+
+(* ---- the self tail call: args; f; SLIDE (L+v) (v+1); CALL — the frame is reused ------------------ *)
+
+Lemma step_slide_all : forall fr prog ip top stk h o q mm,
+  nth_error prog ip = Some (ins BYTECODE_SLIDE q mm) ->
+  q = Z.of_nat (length stk) -> mm = Z.of_nat (length top) ->
+  step prog (mk ip (top ++ stk) h o fr) = SNext (mk (S ip) top h o fr).
+Proof.
+  intros fr prog ip top stk h o q mm H -> ->. unfold ValueVM3.step. cbn [v_ip v_stk v_heap v_out v_fr ValueVM3.mkst].
+  rewrite H. cbn [r_op ins r_w0 r_w1]. rewrite !zn_nonneg by lia. rewrite !Nat2Z.id.
+  destruct (Nat.eqb (length stk) 0) eqn:E0.
+  - apply Nat.eqb_eq in E0. destruct stk; [|discriminate E0]. rewrite app_nil_r. reflexivity.
+  - replace (Nat.leb (length stk + length top) (length (top ++ stk))) with true
+      by (symmetry; apply Nat.leb_le; rewrite app_length; lia).
+    rewrite firstn_app, firstn_all, Nat.sub_diag. simpl firstn. rewrite app_nil_r.
+    rewrite skipn_all2 by (rewrite app_length; lia). rewrite app_nil_r. reflexivity.
+Qed.
+
+Lemma step_call_tail : forall prog ip f rest h o e0 F fs target,
+  nth_error prog ip = Some (ins0 BYTECODE_CALL) -> nth_error h f = Some (Z.of_nat target) ->
+  step prog (mk ip (f :: rest) h o (mkfr e0 F fs)) = SNext (mk target rest h o (mkfr e0 F fs)).
+Proof.
+  intros. unfold ValueVM3.step. simpl. rewrite H. simpl. rewrite H0, zn_nonneg by lia.
+  rewrite Nat2Z.id. reflexivity.
+Qed.
+
+Lemma last_call_code_length : forall fi L v ca, length (last_call_code fi L v ca) = (length ca + 4)%nat.
+Proof. intros. unfold last_call_code. rewrite app_length. simpl. lia. Qed.
+
+(* names of the program's functions are pairwise different *)
+Hypothesis Hfind : forall kidx fd, nth_error (g_funcs G) kidx = Some fd ->
+  find_func (fd_name fd) (g_funcs G) = Some fd.
+
+Lemma fsig_find_func : forall f n, fsig_lookup f FS = Some n ->
+  exists fd, find_func f (g_funcs G) = Some fd.
+Proof. intros f n H. destruct (fsig_find f (g_funcs G) n H) as (k & fd & _ & H2 & _). eauto. Qed.
+
+Lemma callee_self : forall m env ce sc L stk kidx fd n, env_match m env ce sc L stk ->
+  nth_error (g_funcs G) kidx = Some fd -> fsig_lookup (fd_name fd) FS = Some n ->
+  exists kidx' cf, nth_error (g_funcs G) kidx' = Some fd /\ n = length (fd_params fd) /\
+    lookup_var genv (fd_name fd) env = Some cf /\ nth_error m cf = Some (MF fd) /\
+    Compile3.fidx FT (fd_name fd) = Z.of_nat (nstd + kidx').
+Proof.
+  intros m env ce sc L stk kidx fd n (_ & Hn & Hf) Hk Hs.
+  destruct (fsig_find (fd_name fd) (g_funcs G) n Hs) as (kidx' & fd' & H1 & H2 & H3 & H4).
+  rewrite (Hfind kidx fd Hk) in H2. inv H2.
+  destruct (Hf _ _ (Hfind kidx fd' Hk)) as (cf & Hg & Hm).
+  exists kidx', cf. repeat split; auto.
+  - unfold lookup_var. destruct (lookup (fd_name fd') env) as [c|] eqn:El; [|exact Hg].
+    pose proof (Hn _ c El) as Hx. unfold is_fname in Hx. fold FS in Hx. rewrite Hs in Hx. discriminate.
+  - unfold Compile3.fidx. unfold FT. rewrite H4. lia.
+Qed.
+
+Lemma tcase_ECall : forall k f args, expr_spec k -> body_spec k ->
+  expr_case (S k) (ECall (EVar f) args) -> tail_case (S k) (ECall (EVar f) args).
+Proof.
+  intros k f args IH IHb Hplain kidx fd Hk env st r st' He sc HF prog ip L ce stk h o m e0 F fs Hc HMS Hout Hem Hlen.
+  set (frc := mkfr e0 F fs) in *.
+  cbn [Compile3.cexpr andb] in Hc |- *. unfold self_is in Hc |- *.
+  destruct (N.eqb f (fd_name fd)) eqn:Eself.
+  2:{ (* another function: an ordinary call *)
+      apply concl_tconcl.
+      exact (Hplain env st r st' He sc HF prog ip L ce (mk ip stk h o frc) m Hc eq_refl HMS Hout Hem). }
+  apply N.eqb_eq in Eself. subst f.
+  rewrite in_F_call in HF.
+  apply andb_true_iff in HF; destruct HF as [HF Fargs].
+  apply andb_true_iff in HF; destruct HF as [_ Hsig].
+  destruct (fsig_lookup (fd_name fd) FS) as [n|] eqn:Hs; [|discriminate Hsig]. apply Nat.eqb_eq in Hsig.
+  destruct (callee_self _ _ _ _ _ _ kidx fd n Hem Hk Hs) as (kidx' & cf & Hk' & Hn & Hlv & Hmcf & Hfi).
+  subst n. rewrite eval_ECall in He. rewrite Hfi in *.
+  change (Compile3.compile_args_f (Compile3.cexpr FT None false) ce L args) with (compile_args ce L args) in *.
+  set (v := Z.of_nat (length args)) in *.
+  set (ca := compile_args ce L args) in *.
+  rewrite last_call_code_length. pose proof Hc as (_ & Hpo & Hin). unfold last_call_code in Hc.
+  pose proof (code_at_app_l _ _ _ _ Hc) as Hca.
+  pose proof (code_at_app_r _ _ _ _ Hc) as H3.
+  set (q := (ip + length ca)%nat) in *.
+  pose proof (code_at_head _ _ _ _ H3) as HGV.
+  pose proof (code_at_head _ _ _ _ (code_at_tail _ _ _ _ H3)) as HFA.
+  pose proof (code_at_head _ _ _ _ (code_at_tail _ _ _ _ (code_at_tail _ _ _ _ H3))) as HSL.
+  pose proof (code_at_head _ _ _ _ (code_at_tail _ _ _ _ (code_at_tail _ _ _ _ (code_at_tail _ _ _ _ H3)))) as HCL.
+  destruct (eval_args genv k env args st) as [[ocs ra] st1] eqn:Eargs.
+  pose proof (args_spec_of k IH args env st ocs ra st1 Eargs sc Fargs prog ip L ce
+                (mk ip stk h o frc) m Hca eq_refl HMS Hout Hem) as Ha.
+  fold ca in Ha. fold q in Ha. unfold args_concl in Ha.
+  destruct ocs as [cs|].
+  2:{ inv He. simpl in Ha. destruct r as [c|ex| |]; simpl; auto.
+      { exfalso. eapply eval_args_none_not_ok; eauto. }
+      destruct Ha as [-> Hr]. split; [reflexivity|]. left.
+      eapply raises_weaken; [exact Hr | lia | subst q; lia]. }
+  destruct Ha as (s1 & m1 & astk & Hst1 & Hip1 & Hstk1 & Hlen1 & HF1 & HMS1 & Hext1 & Hout1 & Hfr1).
+  destruct s1 as [ip1 stk1 h1 o1 fr1]; simpl in Hip1, Hstk1, HMS1, Hout1, Hfr1; subst ip1 stk1 fr1.
+  destruct k as [|k']; [rewrite eval_O in He; inv He; exact I|].
+  rewrite eval_EVar, Hlv in He.
+  pose proof (ext_nth _ _ _ _ Hext1 Hmcf) as Hmcf1.
+  unfold apply_fun in He. unfold get_cell in He. rewrite (ms_fun _ _ _ HMS1 cf fd Hmcf1) in He.
+  destruct (bind_params (fd_params fd) cs) as [penv|] eqn:Hb; [|inv He; exact I].
+  unfold call_body in He. rewrite app_nil_r in He.
+  assert (Hfd : In fd (g_funcs G)) by (eapply nth_error_In; eauto).
+  pose proof (funcs_ok fd Hfd) as Hfok. unfold Compile3.func_in_F in Hfok.
+  apply andb_true_iff in Hfok; destruct Hfok as [_ Hcat].
+  assert (Hc12 : fd_catches fd = [] /\ fd_catch_all fd = None).
+  { destruct (fd_catches fd); [destruct (fd_catch_all fd); [discriminate | auto] | discriminate]. }
+  destruct Hc12 as [C1 C2]. rewrite C1, C2 in He.
+  destruct (eval_items genv (S k') penv st1 (fd_body fd) None) as [rb st3] eqn:Eb.
+  assert (Hg1 : genv_ok m1).
+  { intros g gd Hgd. destruct Hem as (_ & _ & Hf3). destruct (Hf3 g gd Hgd) as (cg & Hl & Hm).
+    exists cg. split; [exact Hl | eapply ext_nth; eauto]. }
+  set (h1' := (h1 ++ [0]) ++ [Z.of_nat (faddr (nstd + kidx'))]).
+  assert (HMS1' : MS m1 st1 h1') by (unfold h1'; apply MS_heap_app, MS_heap_app; exact HMS1).
+  pose proof (IHb kidx' fd Hk' cs penv st1 rb st3 Hb Eb prog astk h1' o1 m1 e0 F fs Hpo HMS1' Hout1 HF1 Hg1) as Hbody.
+  cbn zeta in Hbody. fold (mkfr e0 F fs) in Hbody. fold frc in Hbody.
+  assert (Henter : star prog (mk ip stk h o frc) (mk (faddr (nstd + kidx')) astk h1' o1 frc)).
+  { eapply star_trans; [exact Hst1|].
+    eapply star_step; [apply (step_global_vec0 frc); exact HGV|].
+    eapply star_step; [eapply (step_id_func_addr frc); exact HFA|]. fold h1'.
+    eapply star_step.
+    - change (length (h1 ++ [0]) :: astk ++ stk) with ((length (h1 ++ [0]) :: astk) ++ stk).
+      apply (step_slide_all frc prog (S (S q)) (length (h1 ++ [0]) :: astk) stk h1' o1 _ _ HSL).
+      + unfold v. lia.
+      + unfold v. simpl length. lia.
+    - apply star_one. apply step_call_tail; [exact HCL|].
+      unfold h1'. rewrite nth_error_app2, Nat.sub_diag by lia. reflexivity. }
+  destruct rb as [cb|exb| |].
+  - inv He. simpl. right.
+    destruct Hbody as (h' & o' & m' & a & Hrun & Hm' & HMS' & Hext' & Ho').
+    exists h', o', m', a. split; [eapply star_trans; eauto|]. split; [exact Hm'|]. split; [exact HMS'|].
+    split; [eapply ext_trans; eauto | exact Ho'].
+  - rewrite handlers_nil in He. inv He. simpl.
+    destruct Hbody as (-> & h' & t & Hrun). split; [reflexivity|]. right.
+    exists h', t. eapply star_trans; eauto.
+  - inv He. exact I.
+  - inv He. exact I.
+Qed.
+
+(* one activation: FUNC_DEF; the body in tail position; LINE; RET — or the function's LABEL; RETHROW *)
+Lemma body_of_titems : forall k, titems_spec k -> body_spec k.
 Proof.
   intros k IHi kidx fd Hk cs penv st r st' Hb He prog astk h o m e0 F fs Hpo HMS Hout HF Hg s0.
   assert (Hfd : In fd (g_funcs G)) by (eapply nth_error_In; eauto).
   pose proof (funcs_ok fd Hfd) as Hfok.
-  pose proof (po_fun _ Hpo kidx fd Hk) as Hcode. unfold compile_func in Hcode.
-  rewrite (Hnotail fd Hfd) in Hcode.
+  pose proof (po_fun _ Hpo kidx fd Hk) as Hcode. unfold compile_func, compile_body in Hcode.
   set (fa := faddr (nstd + kidx)) in *.
-  set (frc := {| r_fp := 0; r_exc := e0; r_frames := F :: fs |}) in *.
-  set (body := compile_expr 0 (param_env (fd_params fd) 0) (EBlock (fd_body fd))) in *.
+  set (frc := mkfr e0 F fs) in *.
+  set (body := Compile3.cexpr FT (Some (fd_name fd)) true 0 (param_env (fd_params fd) 0) (EBlock (fd_body fd))) in *.
   pose proof (CompileCorrect3Base.code_at_head _ _ _ _ Hcode) as HFD.
   pose proof (CompileCorrect3Base.code_at_tail _ _ _ _ Hcode) as Hc1.
   pose proof (CompileCorrect3Base.code_at_app_l _ _ _ _ Hc1) as Hbody.
@@ -1938,7 +2379,7 @@ Proof.
                (CompileCorrect3Base.code_at_tail _ _ _ _ (CompileCorrect3Base.code_at_tail _ _ _ _
                (CompileCorrect3Base.code_at_tail _ _ _ _ Hc2)))) as HRW.
   assert (Hlenf : length (compile_func FT fd) = (length body + 5)%nat).
-  { unfold compile_func. rewrite (Hnotail fd Hfd). fold body. cbn [length]. rewrite app_length. cbn [length]. lia. }
+  { unfold compile_func, compile_body. fold body. cbn [length]. rewrite app_length. cbn [length]. lia. }
   assert (Hpc : pcode_at prog (S fa) body).
   { split; [exact Hbody|]. split; [exact Hpo|]. exists kidx, fd. split; [exact Hk|]. fold fa. rewrite Hlenf. lia. }
   assert (He' : eval genv (S k) penv st (EBlock (fd_body fd)) = (r, st')) by (rewrite eval_EBlock; exact He).
@@ -1946,29 +2387,38 @@ Proof.
   { unfold Compile3.func_in_F in Hfok. apply andb_true_iff in Hfok; destruct Hfok as [Hfok _].
     apply andb_true_iff in Hfok; destruct Hfok as [Hfok _]. exact Hfok. }
   pose proof (param_env_match fd cs penv astk m Hfok Hb HF Hg) as Hem.
+  assert (Hlen : Z.of_nat (length astk) = 0 + Z.of_nat (length (fd_params fd))).
+  { assert (length cs = length astk) by (clear - HF; induction HF; simpl; congruence).
+    assert (length cs = length (fd_params fd)).
+    { clear - Hb. revert cs penv Hb. induction (fd_params fd) as [|[[x v] t] ps IH]; intros cs penv Hb;
+        destruct cs; simpl in Hb; try discriminate; [reflexivity|].
+      destruct (bind_params ps cs) eqn:E; [|discriminate]. simpl. f_equal. eapply IH; eauto. }
+    lia. }
   assert (H0 : star prog s0 (mk (S fa) astk h o frc)).
   { apply star_one. apply (step_func_def frc). exact HFD. }
-  pose proof (case_EBlock frc k (fd_body fd) IHi penv st r st' He' (param_names (fd_params fd)) HFb prog 0
-                (param_env (fd_params fd) 0) (S fa) astk h o m Hpc HMS Hout Hem) as Hx.
-  fold body in Hx.
+  pose proof (tcase_EBlock k (fd_body fd) IHi kidx fd Hk penv st r st' He' (param_names (fd_params fd)) HFb prog (S fa) 0
+                (param_env (fd_params fd) 0) astk h o m e0 F fs Hpc HMS Hout Hem Hlen) as Hx.
+  fold body frc in Hx.
   destruct r as [c|ex| |]; auto.
-  - destruct Hx as (s1 & m1 & a & Hst1 & Hip1 & Hstk1 & Hm1 & HMS1 & Hext1 & Hout1 & Hfr1).
-    destruct s1 as [ip1 stk1 h1 o1 fr1]; simpl in Hip1, Hstk1, HMS1, Hout1, Hfr1; subst ip1 stk1 fr1.
-    exists h1, o1, m1, a. split; [|auto].
-    eapply star_trans; [exact H0|]. eapply star_trans; [exact Hst1|].
-    eapply star_step; [apply (step_line frc); exact HLN|].
-    apply star_one. apply step_ret_frame. exact HRT.
-  - destruct Hx as (-> & s1 & fip & Hst1 & Hrng & Hip1 & Hfr1 & (t & top & Hstk1) & Hout1).
-    split; [reflexivity|].
-    destruct s1 as [ip1 stk1 h1 o1 fr1]; simpl in Hip1, Hstk1, Hout1, Hfr1; subst stk1 o1 fr1.
-    rewrite (po_tab _ Hpo kidx fd fip Hk) in Hip1 by (fold fa; rewrite Hlenf; lia).
-    fold fa in Hip1. rewrite Hlenf in Hip1.
-    replace (fa + (length body + 5) - 2)%nat with (S (S (S fa + length body))) in Hip1 by lia. subst ip1.
-    exists h1, t.
-    eapply star_trans; [exact H0|]. eapply star_trans; [exact Hst1|].
-    eapply star_step; [apply (step_label (set_exc frc ExDivision)); exact HLB|].
-    apply star_one. unfold set_exc, frc. cbn [r_fp r_exc r_frames].
-    apply step_rethrow_frame. exact HRW.
+  - destruct Hx as [(s1 & m1 & a & Hst1 & Hip1 & Hstk1 & Hm1 & HMS1 & Hext1 & Hout1 & Hfr1) | (h' & o' & m' & a & H1 & H2 & H3 & H4 & H5)].
+    + destruct s1 as [ip1 stk1 h1 o1 fr1]; simpl in Hip1, Hstk1, HMS1, Hout1, Hfr1; subst ip1 stk1 fr1.
+      exists h1, o1, m1, a. split; [|auto].
+      eapply star_trans; [exact H0|]. eapply star_trans; [exact Hst1|].
+      eapply star_step; [apply (step_line frc); exact HLN|].
+      apply star_one. apply step_ret_frame. exact HRT.
+    + exists h', o', m', a. split; [eapply star_trans; eauto | auto].
+  - destruct Hx as (-> & [(s1 & fip & Hst1 & Hrng & Hip1 & Hfr1 & (t & top & Hstk1) & Hout1) | (h' & t & H1)]);
+      (split; [reflexivity|]).
+    + destruct s1 as [ip1 stk1 h1 o1 fr1]; simpl in Hip1, Hstk1, Hout1, Hfr1; subst stk1 o1 fr1.
+      rewrite (po_tab _ Hpo kidx fd fip Hk) in Hip1 by (fold fa; rewrite Hlenf; lia).
+      fold fa in Hip1. rewrite Hlenf in Hip1.
+      replace (fa + (length body + 5) - 2)%nat with (S (S (S fa + length body))) in Hip1 by lia. subst ip1.
+      exists h1, t.
+      eapply star_trans; [exact H0|]. eapply star_trans; [exact Hst1|].
+      eapply star_step; [apply (step_label (set_exc frc ExDivision)); exact HLB|].
+      apply star_one. unfold set_exc, frc, mkfr. cbn [r_fp r_exc r_frames].
+      apply step_rethrow_frame. exact HRW.
+    + exists h', t. eapply star_trans; eauto.
 Qed.
 
 (* ---- from the statements at given registers to the general ones ------------------------------ *)
@@ -2004,9 +2454,9 @@ Qed.
 (* ---- the induction ------------------------------------------------------------------------------ *)
 
 Lemma expr_step : forall k, expr_spec k -> items_spec k -> while_spec (S k) -> dowhile_spec (S k) ->
-  expr_spec (S k).
+  body_spec k -> expr_spec (S k).
 Proof.
-  intros k IHe IHi IHw IHd e. apply expr_case_of_at. intro fr.
+  intros k IHe IHi IHw IHd IHb e. apply expr_case_of_at. intro fr.
   destruct e; try (intros ? ? ? ? ? ? HF; simpl in HF; discriminate HF).
   - apply case_EInt.
   - apply case_EBool.
@@ -2019,7 +2469,7 @@ Proof.
   - apply case_ECond; assumption.
   - apply case_EAssign; assumption.
   - destruct e; try (intros ? ? ? ? ? ? HF; cbn [Compile3.in_F] in HF; discriminate HF).
-    apply case_ECall; [assumption | apply body_of_items; assumption].
+    apply case_ECall; assumption.
   - apply case_EBlock; assumption.
   - apply case_EWhile; assumption.
   - apply case_EDoWhile; assumption.
@@ -2027,22 +2477,41 @@ Proof.
   - apply case_EPrint; assumption.
 Qed.
 
-Lemma spec_all : forall k, expr_spec k /\ items_spec k /\ while_spec k /\ dowhile_spec k.
+Lemma tail_step : forall k, expr_spec k -> tail_spec k -> titems_spec k -> body_spec k ->
+  expr_spec (S k) -> tail_spec (S k).
 Proof.
-  induction k as [|k (IHe & IHi & IHw & IHd)].
-  - split; [|split; [|split]].
+  intros k IHe IHt IHi IHb IHe' e.
+  destruct e; try (apply tcase_other; [apply IHe' | reflexivity]).
+  - apply tcase_ECond; assumption.
+  - destruct e; try (apply tcase_other; [apply IHe' | reflexivity]).
+    apply tcase_ECall; [assumption | assumption | apply IHe'].
+  - apply tcase_EBlock; assumption.
+Qed.
+
+Lemma spec_all : forall k, expr_spec k /\ items_spec k /\ while_spec k /\ dowhile_spec k /\
+                           tail_spec k /\ titems_spec k.
+Proof.
+  induction k as [|k (IHe & IHi & IHw & IHd & IHt & IHti)].
+  - repeat split.
     + intros e env st r st' He. rewrite eval_O in He. inv He. intros; exact I.
     + intros items env st last r st' He. rewrite eval_items_O in He. inv He. intros; exact I.
     + intros c b env st r st' He. rewrite eval_O in He. inv He. intros; exact I.
     + intros b c env st r st' He. rewrite eval_O in He. inv He. intros; exact I.
+    + intros e kidx fd Hk env st r st' He. rewrite eval_O in He. inv He. intros; exact I.
+    + intros kidx fd Hk items env st last r st' He. rewrite eval_items_O in He. inv He. intros; exact I.
   - assert (IHw' : while_spec (S k)).
     { apply while_spec_of_at. intro fr. apply while_step; assumption. }
     assert (IHd' : dowhile_spec (S k)).
     { apply dowhile_spec_of_at. intro fr. apply dowhile_step; assumption. }
-    split; [|split; [|split]]; auto.
-    + apply expr_step; assumption.
-    + apply items_spec_of_at. intro fr. apply items_step; assumption.
+    pose proof (body_of_titems k IHti) as IHb.
+    assert (IHe' : expr_spec (S k)) by (apply expr_step; assumption).
+    split; [exact IHe'|]. split; [apply items_spec_of_at; intro fr; apply items_step; assumption|].
+    split; [exact IHw'|]. split; [exact IHd'|].
+    split; [apply tail_step; assumption | apply titems_step; assumption].
 Qed.
+
+Lemma body_all : forall k, body_spec k.
+Proof. intros k. apply body_of_titems. apply (spec_all k). Qed.
 
 (* ---- compile_expr_correct on the machine with frames ------------------------------------------- *)
 
